@@ -29,8 +29,21 @@ fn shape_blocks(cs: u64) -> (u64, usize) {
     (in_off, ((n as u64) * cs - in_off) as usize)
 }
 
+fn entries_any() -> ([u64; 4], [u64; 4], [u64; 4]) {
+    (kani::any(), kani::any(), kani::any())
+}
+
+/// pairwise distinct, non-zero entries: enough to tell which slice and slot an entry came from
+fn entries_distinct() -> ([u64; 4], [u64; 4], [u64; 4]) {
+    (
+        [0x8000_0000_00a0_0000, 0x8000_0000_00a1_0000, 0x8000_0000_00a2_0000, 0x8000_0000_00a3_0000],
+        [0x8000_0000_00b0_0000, 0x8000_0000_00b1_0000, 0x8000_0000_00b2_0000, 0x8000_0000_00b3_0000],
+        [0x8000_0000_00c0_0000, 0x8000_0000_00c1_0000, 0x8000_0000_00c2_0000, 0x8000_0000_00c3_0000],
+    )
+}
+
 macro_rules! ge_lookup {
-    ($name:ident, $blo:expr, $bhi:expr, $flo:expr, $shape:ident) => {
+    ($name:ident, $blo:expr, $bhi:expr, $flo:expr, $shape:ident, $entries:ident) => {
 #[kani::proof]
 #[kani::unwind(6)]
 #[kani::stub(std::fmt::format, fmt_stub2)]
@@ -41,9 +54,7 @@ fn $name() {
     let cs = 1u64 << cb;
     let base: usize = kani::any();
     kani::assume(base >= $blo && base <= $bhi);
-    let a: [u64; 4] = kani::any(); // slice0[60..64]
-    let b: [u64; 4] = kani::any(); // slice1[0..4]
-    let w: [u64; 4] = kani::any(); // slice0[0..4]
+    let (a, b, w): ([u64; 4], [u64; 4], [u64; 4]) = $entries(); // slice0[60..64], slice1[0..4], slice0[0..4]
     let mut s0 = L2Table::new(Some(0x10000), 512, cb as usize);
     let mut s1 = L2Table::new(Some(0x10200), 512, cb as usize);
     let mut i = 0;
@@ -89,10 +100,10 @@ fn $name() {
 // @timeout 1500
 // @needs GE
 // @desc the whole body of get_l2_entries (cache / L1 lookups shimmed by two adjacent L2 slices with arbitrary entries, each cached or not): it returns exactly one entry per guest cluster touched by [off, off+len), in order, and entry i is the L2 entry of guest cluster first+i taken from the RIGHT slice at the RIGHT index -- including requests that start in the middle of a slice and cross into the next one
-// @bounds two adjacent 64-entry slices (512-byte slices), arbitrary entries in the last 4 of the first, the first 4 of the second and the first 4 of the first (wrap-around witnesses); request: starts in the LAST cluster of the first slice (slice key 3, concrete), covers 1..=3 clusters and starts at the cluster boundary or 0x1200 bytes into the cluster; 64 KiB clusters (concrete); cached/uncached symbolic; both L1 entries non-zero
+// @bounds two adjacent 64-entry slices (512-byte slices) with pairwise distinct entries in the last 4 slots of the first, the first 4 of the second and the first 4 of the first (wrap-around witnesses); request: starts in the LAST cluster of the first slice (slice key 3, concrete), covers 1..=3 clusters and starts at the cluster boundary or 0x1200 bytes into the cluster; 64 KiB clusters (concrete); cached/uncached symbolic; both L1 entries non-zero
 // @funcs Qcow2Dev::get_l2_entries (whole body) SplitGuestOffset::{l2_slice_key,l2_slice_index} L2Table::get_entry Qcow2Info::{cluster_round_up,cluster_round_down}
 // @stub alloc::fmt::format -> String::new()
-ge_lookup!(c01_l2_entries_lookup, 3, 3, 63, shape_blocks);
+ge_lookup!(c01_l2_entries_lookup, 3, 3, 63, shape_blocks, entries_distinct);
 
 // @harness c01_l2_entries_lookup_wide
 // @props C01 C09
@@ -104,4 +115,4 @@ ge_lookup!(c01_l2_entries_lookup, 3, 3, 63, shape_blocks);
 // @bounds two adjacent 64-entry slices (512-byte slices), arbitrary entries in the last 4 of the first, the first 4 of the second and the first 4 of the first (wrap-around witnesses); request: starts in the last 2 clusters of the first slice (slice key < 16), spans 1..=3 clusters, any in-cluster offsets; 64 KiB clusters (concrete); cached/uncached symbolic; both L1 entries non-zero
 // @funcs Qcow2Dev::get_l2_entries (whole body) SplitGuestOffset::{l2_slice_key,l2_slice_index} L2Table::get_entry Qcow2Info::{cluster_round_up,cluster_round_down}
 // @stub alloc::fmt::format -> String::new()
-ge_lookup!(c01_l2_entries_lookup_wide, 0, 15, 62, shape_any);
+ge_lookup!(c01_l2_entries_lookup_wide, 0, 15, 62, shape_any, entries_any);
